@@ -27,6 +27,13 @@ CHECKS = {
              'must equal those of a fresh session advanced by the net number of steps; refused rewinds must change nothing.',
         note='trusted: the fresh session of the same implementation is the reference (its correctness is C01/C02); harness reads public fields of InterpreterEnv',
         ref='5 C04'),
+    'C05': dict(
+        technique='runtime monitoring: reference-model monitor over TaprootCommitmentEnv::Iterate() traces and commitment-phase sessions (ASan+UBSan build)',
+        text='Exploration: valid commitments for every path length 0..128, both parity bits, all 128 even leaf versions and adversarial node orderings are built by an independent BIP341 implementation, then every single-field corruption of them; '
+             'the real step-wise check is run and compared on the leaf hash, every intermediate TapBranch value it displays, the number of steps and the final verdict; the same through sessions with an attached commitment phase '
+             '(leaf hash later used for signing) and control-block sizes 0..4225 through configure_tx_txin.',
+        note='trusted: ref/taproot.py, ref/secp.py (anchored on doc/txs/p2ts and BIP340 vector 0)',
+        ref='5 C05'),
     'C10': dict(
         technique='runtime monitoring: lock-step reference-model monitor over Instance::step() traces of boundary scripts (ASan+UBSan build)',
         text='Exploration over a deterministic boundary matrix: for each consensus limit (520-byte push, 1000 stack+altstack items, 201 counted ops incl. multisig key counts, 20 multisig keys, 10,000-byte scripts, 4/5-byte numeric operands) '
